@@ -376,6 +376,7 @@ type c07Obs struct {
 	StallMs  int64    `json:"longest_scheduler_stall_ms,omitempty"`
 	WaitEarly bool    `json:"wait_returned_early,omitempty"`
 	WaitStuck bool    `json:"wait_stuck_after_stop,omitempty"`
+	Invalid   bool    `json:"harness_invalid,omitempty"`
 }
 
 type c07Lineage struct {
@@ -532,21 +533,7 @@ func c07RunLineage(in *c07In) (res Result) {
 	defer func() { httpserver.GracefulTimeout = oldGrace }()
 
 	obs := c07Obs{}
-	kinds := map[string]bool{}
-	for _, r := range in.Reloads {
-		kinds[r.Kind] = true
-	}
-	var ks []string
-	for k := range kinds {
-		ks = append(ks, k)
-	}
-	sort.Strings(ks)
-	mode := in.Mode
-	if in.Signal {
-		mode += "-sigusr1"
-	}
-	res.Sig = "hist:" + mode + ":" + strings.Join(ks, "+")
-	res.Class = mode + ":" + strings.Join(ks, "+")
+	res.Sig, res.Class = c07SigClass(in)
 
 	// foreign socket for listen-time failures
 	blocked, err := net.Listen("tcp", "127.0.0.9:0")
@@ -883,6 +870,10 @@ func c07RunLineage(in *c07In) (res Result) {
 	// together with the stamp, so they do)
 	res.Term = cApp("CHist", cNatList(a0), cNatList([]int{c07BlockedAddr}), cList(terms))
 
+	if in.Signal && atomic.LoadInt64(&c07SigSeen) != atomic.LoadInt64(&c07SigSent) {
+		obs.Note += fmt.Sprintf("harness: %d SIGUSR1 receipts for %d reloads requested; ", atomic.LoadInt64(&c07SigSeen), atomic.LoadInt64(&c07SigSent))
+		obs.Invalid = true
+	}
 	obs.Requests = len(l.reqs)
 	obs.StallMs = atomic.LoadInt64(&stall) / 1e6
 	// overlap statistics + odd requests for the report
@@ -951,8 +942,34 @@ var c07Hung int
 func c07Run(x interface{}) Result {
 	in := x.(*c07In)
 	if c07Hung >= 5 {
-		return Result{Term: "(CHist [] [] [])", Sig: "skipped", Class: "skipped-after-hangs", Obs: c07Obs{Note: "skipped: 5 earlier lineages of this run hung"}}
+		sig, class := c07SigClass(in)
+		return Result{Term: "(CHist [] [] [])", Sig: sig, Class: class + ":skipped-after-hangs", Obs: c07Obs{Note: "skipped: 5 earlier lineages of this run hung"}}
 	}
+	var r Result
+	if os.Getenv("C07_INPROC") != "" {
+		r = c07RunInProc(in)
+	} else {
+		r = c07RunChild(in)
+	}
+	if o, ok := r.Obs.(c07Obs); ok {
+		// a process that was not scheduled for seconds: client deadlines fired for no fault of
+		// the server; such runs are repeated, never judged
+		if (o.StallMs > 1500 && len(o.Errors) > 0 || o.Invalid) && in.retries < 2 {
+			in.retries++
+			return c07Run(in)
+		}
+		if o.Invalid {
+			sig, class := c07SigClass(in)
+			return Result{Term: "(CHist [] [] [])", Sig: sig, Class: class + ":not-judged", Obs: o}
+		}
+		if strings.Contains(o.Note, "cut short") {
+			c07Hung++
+		}
+	}
+	return r
+}
+
+func c07RunInProc(in *c07In) Result {
 	done := make(chan Result, 1)
 	go func() {
 		defer func() {
@@ -964,13 +981,6 @@ func c07Run(x interface{}) Result {
 	}()
 	select {
 	case r := <-done:
-		if o, ok := r.Obs.(c07Obs); ok && o.StallMs > 1500 && len(o.Errors) > 0 && in.retries < 2 {
-			in.retries++
-			return c07Run(in)
-		}
-		if o, ok := r.Obs.(c07Obs); ok && strings.Contains(o.Note, "cut short") {
-			c07Hung++
-		}
 		return r
 	case <-time.After(90 * time.Second):
 		c07Hung++
@@ -1175,6 +1185,8 @@ var (
 	c07SigOnce sync.Once
 	c07SigText atomic.Value // string: the configuration the loader hands out ("" = loader inactive)
 	c07SigCh   = make(chan string, 16)
+	c07SigSeen int64 // "[INFO] SIGUSR1: Reloading" lines: signals the handler received
+	c07SigSent int64 // reloads requested
 )
 
 func c07SignalSetup() {
@@ -1199,6 +1211,8 @@ type c07LogWriter struct{}
 func (c07LogWriter) Write(p []byte) (int, error) {
 	for _, line := range strings.Split(string(p), "\n") {
 		switch {
+		case strings.Contains(line, "[INFO] SIGUSR1: Reloading"):
+			atomic.AddInt64(&c07SigSeen, 1)
 		case strings.Contains(line, "[INFO] Reloading complete"):
 			select {
 			case c07SigCh <- "":
@@ -1219,8 +1233,21 @@ func c07SignalReload(text string) error {
 		<-c07SigCh
 	}
 	c07SigText.Store(text)
-	if err := syscall.Kill(os.Getpid(), syscall.SIGUSR1); err != nil {
-		return fmt.Errorf("harness: kill: %v", err)
+	// casket.TrapSignals installs its handler in a goroutine: a signal sent before that goroutine
+	// has run is dropped by the Go runtime.  The handler logs the receipt at once, so the signal
+	// is repeated until it was received (a signal that was received twice shows up as one
+	// receipt too many at the end of the lineage, which is then run again, never judged).
+	want := atomic.AddInt64(&c07SigSent, 1)
+	for try := 0; atomic.LoadInt64(&c07SigSeen) < want; try++ {
+		if try >= 100 {
+			return errors.New("harness: the SIGUSR1 handler never reported a receipt")
+		}
+		if err := syscall.Kill(os.Getpid(), syscall.SIGUSR1); err != nil {
+			return fmt.Errorf("harness: kill: %v", err)
+		}
+		for w := 0; w < 300 && atomic.LoadInt64(&c07SigSeen) < want; w++ {
+			time.Sleep(time.Millisecond)
+		}
 	}
 	select {
 	case m := <-c07SigCh:
